@@ -152,6 +152,12 @@ func runC02(c *Ctx, r *Report, tier string) {
 		r.Check(ok, "UNQUOTE", pon, "Set(&arg) only after unquoting (unless unquote:\"false\")", c.ipos(argSet), "every path passes unquoteIfPossible or the tag's false edge", "Set reachable without unquoting: "+pathStr(path))
 	}
 
+	// the separate token is vetted as it was typed: unquoting never precedes the vetting
+	for _, uqc := range c.instrs(po, c.isCallTo("unquoteIfPossible")) {
+		for _, v := range c.instrs(po, c.isCallTo("(*Option).isValidValue")) {
+			r.Check(!c.reachableFrom(po, uqc, isInstr(v)), "ADMISSIBLE", pon, "vetting sees the token before unquoting", c.ipos(v), "isValidValue is not reachable after unquoteIfPossible", "the popped token is unquoted first and vetted afterwards: a quoted literal such as \"-v\" is rejected as an option although the inline spellings accept it")
+		}
+	}
 	// ADMISSIBLE
 	for _, in := range c.instrs(po, c.isCallTo("(*Option).isValidValue")) {
 		c.reqRule(r, "ADMISSIBLE", po, in, "isValidValue only for a popped token", litHas(false, "nonnil(P5)"), "argument == nil", nil)
